@@ -71,7 +71,9 @@ class BitBuffer:
 
     def flush(self) -> None:
         if self._type is not None:
-            self._type._write(self.stream, self._buffer)
+            # The buffer holds the raw bits of the storage unit, so write it as an unsigned number
+            # Going through a signed storage type would overflow as soon as the top bit is set
+            self.stream.write(self._buffer.to_bytes(self._type.size, "little" if self.endian == "<" else "big"))
         self._type = None
         self._remaining = 0
         self._buffer = 0
